@@ -343,7 +343,7 @@ class C29(Spec):
 
     def gen(self, tier, rng):
         cases = sweep_cases()
-        n = 700 if tier == 'quick' else 15000
+        n = 450 if tier == "quick" else 15000
         for _ in range(n):
             cases.append(oracle_case(rng))
         for _ in range(n // 2):
@@ -351,7 +351,7 @@ class C29(Spec):
         return cases
 
     def search_gen(self, tier, rng):
-        return [oracle_case(rng) for _ in range(4000)]
+        return [oracle_case(rng) for _ in range(1200)]
 
     def got_term(self, c):
         return '(v_run %s %s [%s] [%s] [%s])' % (
